@@ -25,7 +25,7 @@ CMAKE = 'mesonbuild/modules/cmake.py'
 # quick scope: the modules that produce the generated text the statement lists (build.ninja, intro-*.json, test/install data,
 # configure_file outputs, .pc files) and the option registration they serialise.
 SCOPE = [NINJA, BACKENDS, 'mesonbuild/coredata.py', 'mesonbuild/mintro.py', UNIVERSAL, 'mesonbuild/compilers/compilers.py',
-         INTERP, PKGCONFIG, 'mesonbuild/options.py', 'mesonbuild/build.py']
+         INTERP, PKGCONFIG, 'mesonbuild/options.py', 'mesonbuild/build.py', 'mesonbuild/modules/i18n.py']
 # indexed for attribute / method tables only (callee summaries), not scanned in the quick tier
 INDEX_EXTRA = ['mesonbuild/utils/core.py', 'mesonbuild/environment.py', 'mesonbuild/dependencies/base.py', 'mesonbuild/programs.py',
                'mesonbuild/compilers/__init__.py']
@@ -61,6 +61,13 @@ TECHNIQUE = ('annotation-driven set typing + consumer / effect classification wi
              'decision table of __lt__ (sa.tables) with enumeration of the worlds of its atoms and a swapped-pair consistency check')
 
 _CACHE: T.Dict[int, T.Any] = {}
+
+
+def _func(mod: Module, qual: str) -> T.Any:
+    """An anchor that is not where it used to be is 'written differently' (renamed, moved, merged), not a finding and not a crash."""
+    if not mod.has_func(qual):
+        raise Undecided(f'{mod.rel}: function {qual} not found (renamed or moved?)')
+    return mod.func(qual)
 
 
 class _NoGC:
@@ -244,14 +251,16 @@ def _alpha_comprehensions(fn: ast.AST) -> T.Any:
 
 def _r2_core(ctx: RuleCtx) -> None:
     mod = ctx.repo.module(NINJA)
+    if not mod.has_cls('NinjaBuildElement'):
+        raise Undecided(f'{mod.rel}: class NinjaBuildElement not found (renamed or moved?)')
     cls = mod.cls('NinjaBuildElement')
-    fn = mod.func('NinjaBuildElement.write')
+    fn = _func(mod, 'NinjaBuildElement.write')
     table = Resolver(ctx.repo, [NINJA]).attr_table(mod, cls)
     set_attrs = sorted(a for a, t in table.items() if t.kind == 'set')
     fn = _alpha_comprehensions(fn)    # engine work-around: sa.flow merges comprehension variables of the same name
     raw = Flow(fn, nested=False)
     cut = Flow(fn, cut={'sorted'}, nested=False)
-    writes = [c for c in ast.walk(fn) if isinstance(c, ast.Call) and isinstance(c.func, ast.Attribute) and c.func.attr == 'write'
+    writes = [c for c in ast.walk(fn) if isinstance(c, ast.Call) and isinstance(c.func, ast.Attribute) and c.func.attr in ('write', 'writelines')
               and isinstance(c.func.value, ast.Name) and c.func.value.id in raw.params and c.args]
     if not writes:
         raise Undecided('NinjaBuildElement.write: no <param>.write(text) call found')
@@ -284,7 +293,7 @@ def _r2_core(ctx: RuleCtx) -> None:
     # the fillers really are sets (add_dep / add_orderdep store into them): the summary R1 relies on
     for meth, attr in (('add_dep', 'deps'), ('add_orderdep', 'orderdeps')):
         q2 = f'NinjaBuildElement.{meth}'
-        f2 = mod.func(q2)
+        f2 = _func(mod, q2)
 
         def set_muts(fn: ast.AST, target: str) -> T.List[ast.AST]:
             out: T.List[ast.AST] = []
@@ -474,7 +483,7 @@ def _helper_finishes(ctx: RuleCtx, mod: Module, qual: str, call: ast.Call, finis
 def _finished_by(ctx: RuleCtx, mod: Module, qual: str, finisher: str, dst_index: int, tmp_index: int) -> int:
     """Every open(P, 'w') in the function - directly or in a same-class / same-module helper that is handed P - is followed on every
     normal path by finisher(.., P, ..) whose destination differs from P, and only after the writer was closed."""
-    fn = mod.func(qual)
+    fn = _func(mod, qual)
     calls = [c for c in walk_no_nested(fn) if isinstance(c, ast.Call)]
     sites: T.List[T.Tuple[ast.Call, str, bool]] = [(op, _ptext(op.args[0]), True) for op in _write_opens(fn)]
     sites += [(c, _ptext(c.func.value), False) for c in _path_writes(fn)]     # Path(P).write_text(...): written and closed in one call
@@ -544,8 +553,18 @@ def _finished_by(ctx: RuleCtx, mod: Module, qual: str, finisher: str, dst_index:
 
 def _close_nodes(cfg: CFG, fn: ast.AST, op: ast.Call, qual: str) -> T.List[T.Any]:
     """CFG nodes at which the file object created by `op` is closed: the with-exit nodes of its `with`, or `<name>.close()`."""
+    # `stack.enter_context(open(...))`: the file is closed when the `with ... as stack` block is left
+    for c in walk_no_nested(fn):
+        if isinstance(c, ast.Call) and isinstance(c.func, ast.Attribute) and c.func.attr == 'enter_context' and any(a is op for a in c.args):
+            stack_name = attr_chain(c.func.value)
+            for w in walk_no_nested(fn):
+                if isinstance(w, (ast.With, ast.AsyncWith)) and any(i.optional_vars is not None and attr_chain(i.optional_vars) == stack_name for i in w.items):
+                    exits = [n for n in cfg.nodes if n.kind == 'with_exit' and n.ast is w]
+                    if exits:
+                        return exits
     for w in walk_no_nested(fn):
-        if isinstance(w, (ast.With, ast.AsyncWith)) and any(i.context_expr is op for i in w.items):
+        if isinstance(w, (ast.With, ast.AsyncWith)) and any(i.context_expr is op or (isinstance(i.context_expr, ast.Call) and any(a is op for a in i.context_expr.args))
+                                                             for i in w.items):
             exits = [n for n in cfg.nodes if n.kind == 'with_exit' and n.ast is w]
             if not exits:
                 raise Undecided(f'{qual}: no with-exit node for `{short(op, 40)}`')
@@ -591,7 +610,7 @@ def _copies_keep_mtime(ctx: RuleCtx) -> None:
     a temporary and replace_if_different - shutil.copy / copyfile stamp the unchanged output with a new mtime on every run."""
     for rel, qual in WRITERS:
         mod = ctx.repo.module(rel)
-        fn = mod.func(qual)
+        fn = _func(mod, qual)
         for c in walk_no_nested(fn):
             if not isinstance(c, ast.Call):
                 continue
@@ -640,7 +659,7 @@ def _generated_sources(ctx: RuleCtx) -> None:
 
 def _replace_if_different(ctx: RuleCtx) -> None:
     mod = ctx.repo.module(UNIVERSAL)
-    fn = mod.func('replace_if_different')
+    fn = _func(mod, 'replace_if_different')
     params = [a.arg for a in fn.args.args]
     if len(params) != 2:
         raise Undecided('replace_if_different: expected (dst, dst_tmp)')
@@ -870,8 +889,104 @@ def _opaque_calls(nodes: T.Iterable[ast.AST]) -> T.List[str]:
     return bad
 
 
+class _DigestFacts(T.NamedTuple):
+    qual: str
+    n_digests: int
+    n_fed: int
+    inputs: T.Set[str]
+    origins: T.Set[str]
+    helper_calls: T.List[str]
+    feeder_findings: T.List[T.Tuple[Module, str, str, str, ast.AST]]
+
+
+def _digest_facts(ctx: RuleCtx, sc: T.Optional[SiteScanner], mod: Module, qual: str, fn: T.Any, roots: T.Sequence[ast.AST],
+                  depth: int = 0) -> T.Optional[_DigestFacts]:
+    """Where the value of `roots` gets its digest from: in this function, or (E1: block extracted into a helper) in a helper of the
+    same class / module whose return value carries it - then the helper's parameters are renamed to the caller's argument texts."""
+    fl = Flow(fn, nested=False)
+    closure: T.List[ast.AST] = []
+    for r in roots:
+        closure += _expr_closure(fl, r)
+    digests = [n for n in closure if isinstance(n, ast.Call) and isinstance(n.func, ast.Attribute) and n.func.attr in ('hexdigest', 'digest')]
+    if not digests:
+        if depth >= 2:
+            return None
+        for c in closure:
+            if not isinstance(c, ast.Call):
+                continue
+            h = _helper_of(ctx, mod, qual, c)
+            if h is None:
+                continue
+            m2, q2, f2, is_method = h
+            rets = [r.value for r in walk_no_nested(f2) if isinstance(r, ast.Return) and r.value is not None]
+            sub = _digest_facts(ctx, sc, m2, q2, f2, rets, depth + 1) if rets else None
+            if sub is None:
+                continue
+            bound = {k: norm(v) for k, v in _bind_args(c, f2, is_method).items()}
+
+            def rename(chain: str) -> str:
+                head, dot, rest = chain.partition('.')
+                return bound[head] + dot + rest if head in bound else chain
+            return sub._replace(inputs={rename(x) for x in sub.inputs})
+        return None
+    # what is fed to the hasher(s): constructor arguments, arguments of <hasher>.update(...), receivers of X.hash(<hasher>)
+    fed: T.List[T.Tuple[ast.AST, bool]] = []          # (expression, fed through a feeder method X.hash(hasher))
+    opaque_feed: T.List[str] = []
+    for d in digests:
+        h = d.func.value        # type: ignore[attr-defined]
+        if isinstance(h, ast.Call):
+            fed += [(a, False) for a in h.args]
+            continue
+        hname = attr_chain(h)
+        if hname is None or '.' in hname:
+            raise Undecided(f'{qual}: hasher expression {short(h, 40)} not understood')
+        for c in walk_no_nested(fn):
+            if not isinstance(c, ast.Call):
+                continue
+            argnames = [attr_chain(a) for a in c.args] + [attr_chain(k.value) for k in c.keywords]
+            if isinstance(c.func, ast.Attribute) and attr_chain(c.func.value) == hname:
+                if c.func.attr == 'update':
+                    fed += [(a, False) for a in c.args]
+                elif c.func.attr not in ('hexdigest', 'digest', 'copy'):
+                    opaque_feed.append(short(c, 50))
+            elif hname in argnames:
+                if isinstance(c.func, ast.Attribute) and c.func.attr == 'hash' and len(c.args) == 1:
+                    fed.append((c.func.value, True))
+                else:
+                    opaque_feed.append(short(c, 50))
+        for v in fl.defs.get(hname, []):
+            if isinstance(v, ast.Call) and not (isinstance(v.func, ast.Attribute) and v.func.attr == 'update'):
+                fed += [(a, False) for a in v.args]
+    inputs: T.Set[str] = set()
+    origins: T.Set[str] = set()
+    helper_calls: T.List[str] = list(opaque_feed)
+    for e, _ in fed:
+        inputs |= _resolved_chains(fl, e)
+        origins |= fl.origins(e)
+        helper_calls += _opaque_calls(_expr_closure(fl, e))
+    # an object whose class declares how it is to be digested (a `hash(self, hasher)` method) must be fed through that method:
+    # its str()/repr() text is not a stable rendering of its content
+    findings: T.List[T.Tuple[Module, str, str, str, ast.AST]] = []
+    if sc is not None:
+        fc = sc._fc_chain(mod, fn, qual)
+        for e, via_method in fed:
+            if via_method:
+                continue
+            for leaf in _resolved_leaves(fl, e):
+                cls = sc.class_of(leaf, fc)
+                if cls is None:
+                    continue
+                hm = ctx.repo.find_method(cls[0], cls[1], 'hash')
+                if hm is not None and len(hm[2].args.args) == 2:
+                    findings.append((mod, qual, f'{norm(leaf)} fed to the digest as text',
+                                     f'`{norm(leaf)}` is a {cls[1].name}, whose class defines {cls[1].name}.hash(hasher) to feed a digest; here its '
+                                     f'str()/repr() text is hashed instead (`{short(e, 50)}`), which is not a stable rendering of its content '
+                                     '(the scratch file name then changes between regenerations)', e))
+    return _DigestFacts(qual, len(digests), len(fed), inputs, origins, helper_calls, findings)
+
+
 def _scratch_name(ctx: RuleCtx, mod: Module, qual: str, required: T.Dict[str, T.Tuple[str, ...]]) -> None:
-    fn = mod.func(qual)
+    fn = _func(mod, qual)
     fl = Flow(fn, nested=False)
     opens = _write_opens(fn)
     if not opens:
@@ -879,84 +994,34 @@ def _scratch_name(ctx: RuleCtx, mod: Module, qual: str, required: T.Dict[str, T.
     sc = _scanner(ctx) if ctx.repo.exists('mesonbuild/utils/core.py') else None
     for op in opens:
         path = op.args[0]
-        closure = _expr_closure(fl, path)
-        digests = [n for n in closure if isinstance(n, ast.Call) and isinstance(n.func, ast.Attribute) and n.func.attr in ('hexdigest', 'digest')]
-        if not digests:
+        facts = _digest_facts(ctx, sc, mod, qual, fn, [path])
+        if facts is None:
             vol = sorted(x for x in fl.origins(path) if _volatile(x))
             if vol:
                 ctx.violation(mod, qual, op, f'the scratch file name {short(path, 50)} is derived from {vol} instead of a content digest: it changes '
                               'between regenerations, so the command line in build.ninja changes', op)
                 continue
-            opaque = _opaque_calls(closure)
+            opaque = _opaque_calls(_expr_closure(fl, path))
             if opaque:
                 raise Undecided(f'{qual}: the scratch file name {short(path, 40)} is computed through {opaque[:3]}, which this rule does not read')
             ctx.violation(mod, qual, op, f'the scratch file name {short(path, 50)} is no longer derived from a content digest '
                           '(every part of the name was followed to literals, parameters and attributes; no hexdigest()/digest() among them)', op)
             continue
-        ctx.ok(f'{qual}: name of `{short(op, 50)}` contains a digest ({len(digests)} digest call(s))')
-        # what is fed to the hasher(s): constructor arguments, arguments of <hasher>.update(...), receivers of X.hash(<hasher>)
-        fed: T.List[T.Tuple[ast.AST, bool]] = []          # (expression, fed through a feeder method X.hash(hasher))
-        opaque_feed: T.List[str] = []
-        for d in digests:
-            h = d.func.value        # type: ignore[attr-defined]
-            if isinstance(h, ast.Call):
-                fed += [(a, False) for a in h.args]
-                continue
-            hname = attr_chain(h)
-            if hname is None or '.' in hname:
-                raise Undecided(f'{qual}: hasher expression {short(h, 40)} not understood')
-            for c in walk_no_nested(fn):
-                if not isinstance(c, ast.Call):
-                    continue
-                argnames = [attr_chain(a) for a in c.args] + [attr_chain(k.value) for k in c.keywords]
-                if isinstance(c.func, ast.Attribute) and attr_chain(c.func.value) == hname:
-                    if c.func.attr == 'update':
-                        fed += [(a, False) for a in c.args]
-                    elif c.func.attr not in ('hexdigest', 'digest', 'copy'):
-                        opaque_feed.append(short(c, 50))
-                elif hname in argnames:
-                    if isinstance(c.func, ast.Attribute) and c.func.attr == 'hash' and len(c.args) == 1:
-                        fed.append((c.func.value, True))
-                    else:
-                        opaque_feed.append(short(c, 50))
-            for v in fl.defs.get(hname, []):
-                if isinstance(v, ast.Call) and not (isinstance(v.func, ast.Attribute) and v.func.attr == 'update'):
-                    fed += [(a, False) for a in v.args]
-        inputs: T.Set[str] = set()
-        fed_origins: T.Set[str] = set()
-        helper_calls: T.List[str] = list(opaque_feed)
-        for e, _ in fed:
-            inputs |= _resolved_chains(fl, e)
-            fed_origins |= fl.origins(e)
-            helper_calls += _opaque_calls(_expr_closure(fl, e))
-        bad = sorted(x for x in (fl.origins(path) | fed_origins) if _volatile(x))
-        ctx.require(not bad, f'{qual}: nothing volatile (id/time/random/counter) flows into the name of `{short(op, 40)}` ({len(fed)} digest inputs)',
+        where = '' if facts.qual == qual else f' (computed in {facts.qual})'
+        ctx.ok(f'{qual}: name of `{short(op, 50)}` contains a digest ({facts.n_digests} digest call(s)){where}')
+        bad = sorted(x for x in (fl.origins(path) | facts.origins) if _volatile(x))
+        ctx.require(not bad, f'{qual}: nothing volatile (id/time/random/counter) flows into the name of `{short(op, 40)}` ({facts.n_fed} digest inputs)',
                     mod, qual, op,
                     f'the scratch file name depends on {bad}: it changes between regenerations, so the command line in build.ninja changes')
-        # an object whose class declares how it is to be digested (a `hash(self, hasher)` method) must be fed through that method:
-        # its str()/repr() text is not a stable rendering of its content
-        if sc is not None:
-            fc = sc._fc_chain(mod, fn, qual)
-            for e, via_method in fed:
-                if via_method:
-                    continue
-                for leaf in _resolved_leaves(fl, e):
-                    cls = sc.class_of(leaf, fc)
-                    if cls is None:
-                        continue
-                    hm = ctx.repo.find_method(cls[0], cls[1], 'hash')
-                    if hm is not None and len(hm[2].args.args) == 2:
-                        ctx.violation(mod, qual, f'{norm(leaf)} fed to the digest as text',
-                                      f'`{norm(leaf)}` is a {cls[1].name}, whose class defines {cls[1].name}.hash(hasher) to feed a digest; here its '
-                                      f'str()/repr() text is hashed instead (`{short(e, 50)}`), which is not a stable rendering of its content '
-                                      '(the scratch file name then changes between regenerations)', e)
+        for fm, fq, construct, msg, node in facts.feeder_findings:
+            ctx.violation(fm, fq, construct, msg, node)
         for what, alts in required.items():
-            ok = any(a in inputs for a in alts)
-            if not ok and helper_calls:
-                raise Undecided(f'{qual}: {what} is not among the direct digest inputs, but the digest is also fed through {helper_calls[:3]}, '
+            ok = any(a in facts.inputs for a in alts)
+            if not ok and facts.helper_calls:
+                raise Undecided(f'{qual}: {what} is not among the direct digest inputs, but the digest is also fed through {facts.helper_calls[:3]}, '
                                 'which this rule does not read')
             ctx.require(ok, f'{qual}: {what} ({"/".join(alts)}) is fed to the digest that names the scratch file', mod, qual, f'digest input: {what}',
-                        f'{what} ({" / ".join(alts)}) is not fed to the digest that names the scratch file any more (inputs: {sorted(inputs)[:12]}): '
+                        f'{what} ({" / ".join(alts)}) is not fed to the digest that names the scratch file any more (inputs: {sorted(facts.inputs)[:12]}): '
                         'two different commands can collide on one file name', op)
 
 
@@ -968,7 +1033,7 @@ def _r4_core(ctx: RuleCtx) -> None:
     _scratch_name(ctx, mod, 'Backend.get_executable_serialisation', {'command arguments': ('cmd_args',)})
     # EnvironmentVariables.hash feeds the hasher in sorted key order
     core = ctx.repo.module('mesonbuild/utils/core.py')
-    hf = core.func('EnvironmentVariables.hash')
+    hf = _func(core, 'EnvironmentVariables.hash')
     loops = [n for n in ast.walk(hf) if isinstance(n, ast.For)]
     upd = [c for l in loops for c in ast.walk(l) if isinstance(c, ast.Call) and isinstance(c.func, ast.Attribute) and c.func.attr == 'update']
     ok = bool(upd) and all(isinstance(l.iter, ast.Call) and isinstance(l.iter.func, ast.Name) and l.iter.func.id == 'sorted' for l in loops)
